@@ -4,6 +4,8 @@
 -/
 import Scc.PMoves.Proofs
 
+set_option autoImplicit false
+
 namespace Scc.PMoves
 
 /-! ## executable checks imply the predicates -/
@@ -329,15 +331,21 @@ theorem edge_normalize (edges : List (Nat × Nat)) (s t : Nat) :
 
 /-! ## T3: the reference-count instructions of a substitution -/
 
+/-- `temporary_from_position` is injective where defined -/
+def TfpInjective (tfp : Nat → Option Nat) : Prop := ∀ a b c, tfp a = some c → tfp b = some c → a = b
+
+/-- `temporary_from_position` does not panic on the temporaries of a context with `n` bindings -/
+def TfpTotal (tfp : Nat → Option Nat) (n : Nat) : Prop := ∀ q, q < 2 * n → ∃ t, tfp q = some t
+
 /-- number of new variables that are bound to the old variable `id` -/
 def targetCount (re : Rearrange) (id : Nat) : Nat := (re.filter (fun no => id == no.2)).length
 
 /-- The reference-count instructions for one old binding: none for `ext` bindings and for bindings with
     exactly one target, one `erase` for no target, one `share (k-1)` for `k ≥ 2` targets, always on the
     `Fst` temporary of the binding. -/
-def refOpsFor (re : Rearrange) (ctx : Ctx) (b : Nat × Chi) : List ROp :=
+def refOpsFor (tfp : Nat → Option Nat) (re : Rearrange) (ctx : Ctx) (b : Nat × Chi) : List ROp :=
   if b.2 = Chi.ext then [] else
-  match variableTemporary 0 ctx b.1, targetCount re b.1 with
+  match variableTemporary tfp 0 ctx b.1, targetCount re b.1 with
   | none, _ => []
   | some t, 0 => [.comment 0 b.1, .erase t]
   | some _, 1 => []
@@ -358,24 +366,29 @@ theorem getPosition_of_mem {ctx : Ctx} {b : Nat × Chi} (h : b ∈ ctx) :
       · obtain ⟨p, hp, hlt⟩ := ih h
         exact ⟨p + 1, by simp [hp], by simp; omega⟩
 
-theorem variableTemporary_of_mem (num : Nat) {ctx : Ctx} {b : Nat × Chi} (h : b ∈ ctx) :
-    ∃ p, variableTemporary num ctx b.1 = some (2 * p + num) ∧ p < ctx.length := by
+theorem variableTemporary_of_mem (tfp : Nat → Option Nat) (num : Nat) {ctx : Ctx} {b : Nat × Chi}
+    (h : b ∈ ctx) :
+    ∃ p, getPosition ctx b.1 = some p ∧ p < ctx.length ∧
+      variableTemporary tfp num ctx b.1 = tfp (2 * p + num) := by
   obtain ⟨p, hp, hlt⟩ := getPosition_of_mem h
-  exact ⟨p, by simp [variableTemporary, hp], hlt⟩
+  exact ⟨p, hp, hlt, by simp [variableTemporary, hp]⟩
 
-theorem codeWeakeningContraction_eq (re : Rearrange) (ctx : Ctx) :
-    codeWeakeningContraction (transpose re ctx) ctx = some (ctx.flatMap (refOpsFor re ctx)) := by
+theorem codeWeakeningContraction_eq (tfp : Nat → Option Nat) (re : Rearrange) (ctx : Ctx)
+    (htot : TfpTotal tfp ctx.length) :
+    codeWeakeningContraction tfp (transpose re ctx) ctx = some (ctx.flatMap (refOpsFor tfp re ctx)) := by
   have : ∀ (bs : List (Nat × Chi)), (∀ b ∈ bs, b ∈ ctx) →
-      codeWeakeningContraction (bs.map (fun binding =>
+      codeWeakeningContraction tfp (bs.map (fun binding =>
         (binding, (re.filter (fun no => binding.1 == no.2)).map (fun no => no.1.1)))) ctx
-        = some (bs.flatMap (refOpsFor re ctx)) := by
+        = some (bs.flatMap (refOpsFor tfp re ctx)) := by
     intro bs
     induction bs with
     | nil => intro _; rfl
     | cons b bs ih =>
       intro hb
       have ih' := ih (fun b' hb' => hb b' (List.mem_cons_of_mem _ hb'))
-      obtain ⟨p, hp, _⟩ := variableTemporary_of_mem 0 (hb b List.mem_cons_self)
+      obtain ⟨p, _, hlt, hp⟩ := variableTemporary_of_mem tfp 0 (hb b List.mem_cons_self)
+      obtain ⟨t, ht⟩ := htot (2 * p + 0) (by omega)
+      rw [ht] at hp
       simp only [List.map_cons, codeWeakeningContraction, List.flatMap_cons, ih']
       by_cases hext : b.2 = Chi.ext
       · simp [hext, refOpsFor]
@@ -388,15 +401,15 @@ theorem codeWeakeningContraction_eq (re : Rearrange) (ctx : Ctx) :
   exact this ctx (fun _ h => h)
 
 /-- every refcount instruction addresses the `Fst` temporary of a non-`ext` old binding -/
-theorem refOpsFor_temporaries {re : Rearrange} {ctx : Ctx} {b : Nat × Chi} {op : ROp}
-    (h : op ∈ refOpsFor re ctx b) :
-    b.2 ≠ Chi.ext ∧ ∀ t, (op = .erase t ∨ ∃ n, op = .share t n) → variableTemporary 0 ctx b.1 = some t := by
+theorem refOpsFor_temporaries {tfp : Nat → Option Nat} {re : Rearrange} {ctx : Ctx} {b : Nat × Chi} {op : ROp}
+    (h : op ∈ refOpsFor tfp re ctx b) :
+    b.2 ≠ Chi.ext ∧ ∀ t, (op = .erase t ∨ ∃ n, op = .share t n) → variableTemporary tfp 0 ctx b.1 = some t := by
   unfold refOpsFor at h
   by_cases hext : b.2 = Chi.ext
   · simp [hext] at h
   · refine ⟨hext, ?_⟩
     simp only [hext, if_false] at h
-    cases hv : variableTemporary 0 ctx b.1 with
+    cases hv : variableTemporary tfp 0 ctx b.1 with
     | none => simp [hv] at h
     | some t' =>
       cases hc : targetCount re b.1 with
@@ -468,51 +481,59 @@ theorem getPosition_inj : ∀ {ctx : Ctx} {id id' p : Nat}, getPosition ctx id =
       subst this
       exact getPosition_inj hq hq'
 
-theorem variableTemporary_inj {ctx : Ctx} {num num' id id' s : Nat} (hn : num ≤ 1) (hn' : num' ≤ 1)
-    (h : variableTemporary num ctx id = some s) (h' : variableTemporary num' ctx id' = some s) :
+theorem variableTemporary_inj {tfp : Nat → Option Nat} (hinj : TfpInjective tfp) {ctx : Ctx}
+    {num num' id id' s : Nat} (hn : num ≤ 1) (hn' : num' ≤ 1)
+    (h : variableTemporary tfp num ctx id = some s) (h' : variableTemporary tfp num' ctx id' = some s) :
     num = num' ∧ id = id' := by
-  simp only [variableTemporary, Option.map_eq_some_iff] at h h'
-  obtain ⟨p, hp, rfl⟩ := h
-  obtain ⟨p', hp', he⟩ := h'
-  have : p' = p ∧ num = num' := by omega
-  obtain ⟨rfl, rfl⟩ := this
-  exact ⟨rfl, getPosition_inj hp hp'⟩
+  simp only [variableTemporary] at h h'
+  cases hp : getPosition ctx id with
+  | none => simp [hp] at h
+  | some p =>
+    cases hp' : getPosition ctx id' with
+    | none => simp [hp'] at h'
+    | some p' =>
+      simp only [hp] at h
+      simp only [hp'] at h'
+      have := hinj _ _ _ h h'
+      have : p' = p ∧ num = num' := by omega
+      obtain ⟨rfl, rfl⟩ := this
+      exact ⟨rfl, getPosition_inj hp hp'⟩
 
 /-- the edges contributed by one entry of the transposed rearrangement -/
-def EntryEdge (ctx nctx : Ctx) (e : (Nat × Chi) × List Nat) (s t : Nat) : Prop :=
-  ∃ num, (num = 1 ∨ (num = 0 ∧ e.1.2 ≠ Chi.ext)) ∧ variableTemporary num ctx e.1.1 = some s ∧
-    ∃ tgt ∈ e.2, variableTemporary num nctx tgt = some t
+def EntryEdge (tfp : Nat → Option Nat) (ctx nctx : Ctx) (e : (Nat × Chi) × List Nat) (s t : Nat) : Prop :=
+  ∃ num, (num = 1 ∨ (num = 0 ∧ e.1.2 ≠ Chi.ext)) ∧ variableTemporary tfp num ctx e.1.1 = some s ∧
+    ∃ tgt ∈ e.2, variableTemporary tfp num nctx tgt = some t
 
-theorem go_cons_some {ctx nctx : Ctx} {b : Nat × Chi} {tg : List Nat}
+theorem go_cons_some {tfp : Nat → Option Nat} {ctx nctx : Ctx} {b : Nat × Chi} {tg : List Nat}
     {rest : List ((Nat × Chi) × List Nat)} {acc pm : PMap}
-    (h : connections.go ctx nctx ((b, tg) :: rest) acc = some pm) :
-    (b.2 = Chi.ext ∧ ∃ s ts, variableTemporary 1 ctx b.1 = some s ∧
-        optMap (variableTemporary 1 nctx) tg = some ts ∧
-        connections.go ctx nctx rest (mapInsert s (setOfList ts) acc) = some pm) ∨
-    (b.2 ≠ Chi.ext ∧ ∃ s0 ts0 s1 ts1, variableTemporary 0 ctx b.1 = some s0 ∧
-        optMap (variableTemporary 0 nctx) tg = some ts0 ∧
-        variableTemporary 1 ctx b.1 = some s1 ∧ optMap (variableTemporary 1 nctx) tg = some ts1 ∧
-        connections.go ctx nctx rest
+    (h : connections.go tfp ctx nctx ((b, tg) :: rest) acc = some pm) :
+    (b.2 = Chi.ext ∧ ∃ s ts, variableTemporary tfp 1 ctx b.1 = some s ∧
+        optMap (variableTemporary tfp 1 nctx) tg = some ts ∧
+        connections.go tfp ctx nctx rest (mapInsert s (setOfList ts) acc) = some pm) ∨
+    (b.2 ≠ Chi.ext ∧ ∃ s0 ts0 s1 ts1, variableTemporary tfp 0 ctx b.1 = some s0 ∧
+        optMap (variableTemporary tfp 0 nctx) tg = some ts0 ∧
+        variableTemporary tfp 1 ctx b.1 = some s1 ∧ optMap (variableTemporary tfp 1 nctx) tg = some ts1 ∧
+        connections.go tfp ctx nctx rest
           (mapInsert s1 (setOfList ts1) (mapInsert s0 (setOfList ts0) acc)) = some pm) := by
   simp only [connections.go] at h
   by_cases hext : b.2 = Chi.ext
   · left
     simp only [hext, beq_self_eq_true, if_true] at h
-    cases h1 : variableTemporary 1 ctx b.1 <;> cases h2 : optMap (variableTemporary 1 nctx) tg <;>
+    cases h1 : variableTemporary tfp 1 ctx b.1 <;> cases h2 : optMap (variableTemporary tfp 1 nctx) tg <;>
       simp only [h1, h2] at h <;> try exact absurd h (by simp)
     exact ⟨hext, _, _, rfl, rfl, h⟩
   · right
     have : ¬ (b.2 == Chi.ext) = true := by simpa using hext
     rw [if_neg this] at h
-    cases h0 : variableTemporary 0 ctx b.1 <;> cases h0' : optMap (variableTemporary 0 nctx) tg <;>
-    cases h1 : variableTemporary 1 ctx b.1 <;> cases h2 : optMap (variableTemporary 1 nctx) tg <;>
+    cases h0 : variableTemporary tfp 0 ctx b.1 <;> cases h0' : optMap (variableTemporary tfp 0 nctx) tg <;>
+    cases h1 : variableTemporary tfp 1 ctx b.1 <;> cases h2 : optMap (variableTemporary tfp 1 nctx) tg <;>
       simp only [h0, h0', h1, h2] at h <;> try exact absurd h (by simp)
     exact ⟨hext, _, _, _, _, rfl, rfl, rfl, rfl, h⟩
 
 /-- soundness: every edge of the result comes from the accumulator or from an entry -/
-theorem go_sound {ctx nctx : Ctx} : ∀ (entries : List ((Nat × Chi) × List Nat)) (acc pm : PMap),
-    connections.go ctx nctx entries acc = some pm → Sorted acc →
-    Sorted pm ∧ ∀ s t, Edge pm s t → Edge acc s t ∨ ∃ e ∈ entries, EntryEdge ctx nctx e s t
+theorem go_sound {tfp : Nat → Option Nat} {ctx nctx : Ctx} : ∀ (entries : List ((Nat × Chi) × List Nat)) (acc pm : PMap),
+    connections.go tfp ctx nctx entries acc = some pm → Sorted acc →
+    Sorted pm ∧ ∀ s t, Edge pm s t → Edge acc s t ∨ ∃ e ∈ entries, EntryEdge tfp ctx nctx e s t
   | [], acc, pm, h, hs => by
     simp only [connections.go, Option.some.injEq] at h
     subst h
@@ -549,11 +570,12 @@ theorem go_sound {ctx nctx : Ctx} : ∀ (entries : List ((Nat × Chi) × List Na
 
 /-- completeness: accumulator edges whose source is not re-inserted survive, and every entry edge is
     present, provided the entries have pairwise distinct ids -/
-theorem go_complete {ctx nctx : Ctx} : ∀ (entries : List ((Nat × Chi) × List Nat)) (acc pm : PMap),
-    connections.go ctx nctx entries acc = some pm → Sorted acc → (entries.map (·.1.1)).Nodup →
+theorem go_complete {tfp : Nat → Option Nat} (hinj : TfpInjective tfp) {ctx nctx : Ctx} :
+    ∀ (entries : List ((Nat × Chi) × List Nat)) (acc pm : PMap),
+    connections.go tfp ctx nctx entries acc = some pm → Sorted acc → (entries.map (·.1.1)).Nodup →
     (∀ s t, Edge acc s t →
-      (∀ e ∈ entries, ∀ num, num ≤ 1 → variableTemporary num ctx e.1.1 ≠ some s) → Edge pm s t) ∧
-    (∀ e ∈ entries, ∀ s t, EntryEdge ctx nctx e s t → Edge pm s t)
+      (∀ e ∈ entries, ∀ num, num ≤ 1 → variableTemporary tfp num ctx e.1.1 ≠ some s) → Edge pm s t) ∧
+    (∀ e ∈ entries, ∀ s t, EntryEdge tfp ctx nctx e s t → Edge pm s t)
   | [], acc, pm, h, _, _ => by
     simp only [connections.go, Option.some.injEq] at h
     subst h
@@ -561,13 +583,13 @@ theorem go_complete {ctx nctx : Ctx} : ∀ (entries : List ((Nat × Chi) × List
   | (b, tg) :: rest, acc, pm, h, hs, hnd => by
     simp only [List.map_cons, List.nodup_cons, List.mem_map, not_exists, not_and] at hnd
     -- a key of the head entry is not a key of a later entry
-    have fresh : ∀ num, num ≤ 1 → ∀ s, variableTemporary num ctx b.1 = some s →
-        ∀ e ∈ rest, ∀ num', num' ≤ 1 → variableTemporary num' ctx e.1.1 ≠ some s := by
+    have fresh : ∀ num, num ≤ 1 → ∀ s, variableTemporary tfp num ctx b.1 = some s →
+        ∀ e ∈ rest, ∀ num', num' ≤ 1 → variableTemporary tfp num' ctx e.1.1 ≠ some s := by
       intro num hn s hv e he num' hn' hv'
-      exact hnd.1 e he (variableTemporary_inj hn' hn hv' hv).2
+      exact hnd.1 e he (variableTemporary_inj hinj hn' hn hv' hv).2
     rcases go_cons_some h with ⟨hext, s1, ts1, hv1, ho1, hgo⟩ | ⟨hext, s0, ts0, s1, ts1, hv0, ho0, hv1, ho1, hgo⟩
     · have hs' := mapInsert_sorted (key := s1) hs (setOfList_ascending ts1)
-      obtain ⟨ih1, ih2⟩ := go_complete rest _ pm hgo hs' hnd.2
+      obtain ⟨ih1, ih2⟩ := go_complete hinj rest _ pm hgo hs' hnd.2
       refine ⟨?_, ?_⟩
       · intro s t e hkeys
         apply ih1 s t
@@ -589,10 +611,10 @@ theorem go_complete {ctx nctx : Ctx} : ∀ (entries : List ((Nat × Chi) × List
         · exact ih2 e he s t hee
     · have hs0 := mapInsert_sorted (key := s0) hs (setOfList_ascending ts0)
       have hs' := mapInsert_sorted (key := s1) hs0 (setOfList_ascending ts1)
-      obtain ⟨ih1, ih2⟩ := go_complete rest _ pm hgo hs' hnd.2
+      obtain ⟨ih1, ih2⟩ := go_complete hinj rest _ pm hgo hs' hnd.2
       have hne01 : s0 ≠ s1 := by
         intro e01
-        exact absurd (variableTemporary_inj (Nat.zero_le 1) (Nat.le_refl 1) hv0 (e01 ▸ hv1)).1 (by omega)
+        exact absurd (variableTemporary_inj hinj (Nat.zero_le 1) (Nat.le_refl 1) hv0 (e01 ▸ hv1)).1 (by omega)
       refine ⟨?_, ?_⟩
       · intro s t e hkeys
         apply ih1 s t
@@ -622,31 +644,35 @@ theorem go_complete {ctx nctx : Ctx} : ∀ (entries : List ((Nat × Chi) × List
             · exact fresh 0 (Nat.zero_le 1) s hv0
         · exact ih2 e he s t hee
 
-theorem variableTemporary_of_id (num : Nat) {ctx : Ctx} {id : Nat} (h : ∃ b ∈ ctx, b.1 = id) :
-    ∃ t, variableTemporary num ctx id = some t := by
+theorem variableTemporary_of_id {tfp : Nat → Option Nat} {num : Nat} (hn : num ≤ 1) {ctx : Ctx}
+    (htot : TfpTotal tfp ctx.length) {id : Nat} (h : ∃ b ∈ ctx, b.1 = id) :
+    ∃ t, variableTemporary tfp num ctx id = some t := by
   obtain ⟨b, hb, rfl⟩ := h
-  obtain ⟨p, hp, _⟩ := variableTemporary_of_mem num hb
-  exact ⟨_, hp⟩
+  obtain ⟨p, _, hlt, hp⟩ := variableTemporary_of_mem tfp num hb
+  obtain ⟨t, ht⟩ := htot (2 * p + num) (by omega)
+  exact ⟨t, by rw [hp, ht]⟩
 
-theorem go_exists {ctx nctx : Ctx} : ∀ (entries : List ((Nat × Chi) × List Nat)) (acc : PMap),
+theorem go_exists {tfp : Nat → Option Nat} {ctx nctx : Ctx} (htot : TfpTotal tfp ctx.length)
+    (htot' : TfpTotal tfp nctx.length) :
+    ∀ (entries : List ((Nat × Chi) × List Nat)) (acc : PMap),
     (∀ e ∈ entries, (∃ b ∈ ctx, b.1 = e.1.1) ∧ ∀ tgt ∈ e.2, ∃ nb ∈ nctx, nb.1 = tgt) →
-    ∃ pm, connections.go ctx nctx entries acc = some pm
+    ∃ pm, connections.go tfp ctx nctx entries acc = some pm
   | [], acc, _ => ⟨acc, rfl⟩
   | (b, tg) :: rest, acc, h => by
     obtain ⟨hb, htg⟩ := h (b, tg) List.mem_cons_self
     have hrest := fun e he => h e (List.mem_cons_of_mem _ he)
-    obtain ⟨s0, hs0⟩ := variableTemporary_of_id 0 hb
-    obtain ⟨s1, hs1⟩ := variableTemporary_of_id 1 hb
-    obtain ⟨ts0, hts0⟩ := optMap_exists (f := variableTemporary 0 nctx) (xs := tg)
-      (fun x hx => variableTemporary_of_id 0 (htg x hx))
-    obtain ⟨ts1, hts1⟩ := optMap_exists (f := variableTemporary 1 nctx) (xs := tg)
-      (fun x hx => variableTemporary_of_id 1 (htg x hx))
+    obtain ⟨s0, hs0⟩ := variableTemporary_of_id (num := 0) (Nat.zero_le 1) htot hb
+    obtain ⟨s1, hs1⟩ := variableTemporary_of_id (num := 1) (Nat.le_refl 1) htot hb
+    obtain ⟨ts0, hts0⟩ := optMap_exists (f := variableTemporary tfp 0 nctx) (xs := tg)
+      (fun x hx => variableTemporary_of_id (Nat.zero_le 1) htot' (htg x hx))
+    obtain ⟨ts1, hts1⟩ := optMap_exists (f := variableTemporary tfp 1 nctx) (xs := tg)
+      (fun x hx => variableTemporary_of_id (Nat.le_refl 1) htot' (htg x hx))
     simp only [connections.go] at hs0 hs1 hts0 hts1 ⊢
     split
     · simp only [hs1, hts1]
-      exact go_exists rest _ hrest
+      exact go_exists htot htot' rest _ hrest
     · simp only [hs0, hs1, hts0, hts1]
-      exact go_exists rest _ hrest
+      exact go_exists htot htot' rest _ hrest
 
 theorem eq_of_nodup_map {α β : Type} (f : α → β) : ∀ {l : List α}, (l.map f).Nodup →
     ∀ {a b : α}, a ∈ l → b ∈ l → f a = f b → a = b
@@ -662,12 +688,12 @@ theorem eq_of_nodup_map {α β : Type} (f : α → β) : ∀ {l : List α}, (l.m
 /-- The moves a substitution has to perform: for every pair `(new := old)` of the rearrangement with
     `old` bound in the context, the `Snd` temporary, and for non-`ext` bindings also the `Fst`
     temporary, of `old`'s position goes to the corresponding temporary of `new`'s position. -/
-def SubstEdge (re : Rearrange) (ctx : Ctx) (s t : Nat) : Prop :=
+def SubstEdge (tfp : Nat → Option Nat) (re : Rearrange) (ctx : Ctx) (s t : Nat) : Prop :=
   ∃ b ∈ ctx, ∃ e ∈ re, e.2 = b.1 ∧ ∃ num, (num = 1 ∨ (num = 0 ∧ b.2 ≠ Chi.ext)) ∧
-    variableTemporary num ctx b.1 = some s ∧ variableTemporary num (newContext re) e.1.1 = some t
+    variableTemporary tfp num ctx b.1 = some s ∧ variableTemporary tfp num (newContext re) e.1.1 = some t
 
-theorem entryEdge_transpose {re : Rearrange} {ctx : Ctx} {s t : Nat} :
-    (∃ e ∈ transpose re ctx, EntryEdge ctx (newContext re) e s t) ↔ SubstEdge re ctx s t := by
+theorem entryEdge_transpose {tfp : Nat → Option Nat} {re : Rearrange} {ctx : Ctx} {s t : Nat} :
+    (∃ e ∈ transpose re ctx, EntryEdge tfp ctx (newContext re) e s t) ↔ SubstEdge tfp re ctx s t := by
   simp only [transpose, List.mem_map, EntryEdge, SubstEdge]
   constructor
   · rintro ⟨_, ⟨b, hb, rfl⟩, num, hnum, hvs, tgt, htgt, hvt⟩
@@ -679,13 +705,14 @@ theorem entryEdge_transpose {re : Rearrange} {ctx : Ctx} {s t : Nat} :
     simp only [List.mem_map, List.mem_filter, beq_iff_eq]
     exact ⟨e, ⟨he, heb.symm⟩, rfl⟩
 
-theorem substEdge_functional {re : Rearrange} {ctx : Ctx} (hnew : (re.map (·.1.1)).Nodup)
-    {s s' t : Nat} (h : SubstEdge re ctx s t) (h' : SubstEdge re ctx s' t) : s = s' := by
+theorem substEdge_functional {tfp : Nat → Option Nat} (hinj : TfpInjective tfp) {re : Rearrange}
+    {ctx : Ctx} (hnew : (re.map (·.1.1)).Nodup)
+    {s s' t : Nat} (h : SubstEdge tfp re ctx s t) (h' : SubstEdge tfp re ctx s' t) : s = s' := by
   obtain ⟨b, _, e, he, heb, num, hnum, hvs, hvt⟩ := h
   obtain ⟨b', _, e', he', heb', num', hnum', hvs', hvt'⟩ := h'
   have hn : num ≤ 1 := by rcases hnum with rfl | ⟨rfl, _⟩ <;> omega
   have hn' : num' ≤ 1 := by rcases hnum' with rfl | ⟨rfl, _⟩ <;> omega
-  obtain ⟨rfl, hid⟩ := variableTemporary_inj hn hn' hvt hvt'
+  obtain ⟨rfl, hid⟩ := variableTemporary_inj hinj hn hn' hvt hvt'
   have : e = e' := eq_of_nodup_map (fun e : (Nat × Chi) × Nat => e.1.1) hnew he he' hid
   subst this
   rw [← heb, heb'] at hvs
@@ -694,10 +721,11 @@ theorem substEdge_functional {re : Rearrange} {ctx : Ctx} (hnew : (re.map (·.1.
 
 /-- `connections` applied to the transposed rearrangement: no panic, a sorted functional map whose edges
     are exactly the required moves. -/
-theorem connections_spec (re : Rearrange) (ctx : Ctx) (hctx : (ctx.map (·.1)).Nodup)
-    (hnew : (re.map (·.1.1)).Nodup) :
-    ∃ pm, connections (transpose re ctx) ctx (newContext re) = some pm ∧ Sorted pm ∧ Functional pm ∧
-      ∀ s t, Edge pm s t ↔ SubstEdge re ctx s t := by
+theorem connections_spec (tfp : Nat → Option Nat) (hinj : TfpInjective tfp) (re : Rearrange) (ctx : Ctx)
+    (htot : TfpTotal tfp ctx.length) (htot' : TfpTotal tfp re.length)
+    (hctx : (ctx.map (·.1)).Nodup) (hnew : (re.map (·.1.1)).Nodup) :
+    ∃ pm, connections tfp (transpose re ctx) ctx (newContext re) = some pm ∧ Sorted pm ∧ Functional pm ∧
+      ∀ s t, Edge pm s t ↔ SubstEdge tfp re ctx s t := by
   have hex : ∀ e ∈ transpose re ctx, (∃ b ∈ ctx, b.1 = e.1.1) ∧
       ∀ tgt ∈ e.2, ∃ nb ∈ newContext re, nb.1 = tgt := by
     intro e he
@@ -708,13 +736,15 @@ theorem connections_spec (re : Rearrange) (ctx : Ctx) (hctx : (ctx.map (·.1)).N
     simp only [List.mem_map, List.mem_filter] at htgt
     obtain ⟨e, ⟨he, _⟩, rfl⟩ := htgt
     exact ⟨e.1, List.mem_map.mpr ⟨e, he, rfl⟩, rfl⟩
-  obtain ⟨pm, hpm⟩ := go_exists (ctx := ctx) (nctx := newContext re) (transpose re ctx) [] hex
+  have hlen : (newContext re).length = re.length := by simp [newContext]
+  obtain ⟨pm, hpm⟩ := go_exists (tfp := tfp) (ctx := ctx) (nctx := newContext re) htot
+    (by rw [hlen]; exact htot') (transpose re ctx) [] hex
   have hs0 : Sorted ([] : PMap) := ⟨by simp [Ascending], by simp⟩
   obtain ⟨hsorted, hsound⟩ := go_sound _ _ _ hpm hs0
   have hids : ((transpose re ctx).map (·.1.1)).Nodup := by
     simpa [transpose, List.map_map, Function.comp_def] using hctx
-  obtain ⟨_, hcomplete⟩ := go_complete _ _ _ hpm hs0 hids
-  have hedge : ∀ s t, Edge pm s t ↔ SubstEdge re ctx s t := by
+  obtain ⟨_, hcomplete⟩ := go_complete hinj _ _ _ hpm hs0 hids
+  have hedge : ∀ s t, Edge pm s t ↔ SubstEdge tfp re ctx s t := by
     intro s t
     rw [← entryEdge_transpose]
     constructor
@@ -726,25 +756,64 @@ theorem connections_spec (re : Rearrange) (ctx : Ctx) (hctx : (ctx.map (·.1)).N
       exact hcomplete e he s t hee
   refine ⟨pm, hpm, hsorted, ?_, hedge⟩
   intro s s' t h h'
-  exact substEdge_functional hnew ((hedge s t).mp h) ((hedge s' t).mp h')
+  exact substEdge_functional hinj hnew ((hedge s t).mp h) ((hedge s' t).mp h')
 
 /-- C11 at the level of a whole `Substitute` statement (abstract machine): the refcount instructions are
     the expected ones and come first; then the moves realise the simultaneous assignment. -/
-theorem codeSubstitute_correct {V : Type} (re : Rearrange) (ctx : Ctx) (csE : Root → Bool)
+theorem codeSubstitute_correct {V : Type} (tfp : Nat → Option Nat) (hinj : TfpInjective tfp)
+    (re : Rearrange) (ctx : Ctx) (csE : Root → Bool)
+    (htot : TfpTotal tfp ctx.length) (htot' : TfpTotal tfp re.length)
     (hctx : (ctx.map (·.1)).Nodup) (hnew : (re.map (·.1.1)).Nodup) :
-    ∃ rc mv, codeSubstitute re ctx csE = .ok rc mv ∧ rc = ctx.flatMap (refOpsFor re ctx) ∧
+    ∃ rc mv, codeSubstitute tfp re ctx csE = .ok rc mv ∧ rc = ctx.flatMap (refOpsFor tfp re ctx) ∧
       ∀ (σ : Nat → V) (sc : V),
-        (∀ s t, SubstEdge re ctx s t → (run mv (σ, sc)).1 t = σ s) ∧
-        (∀ x, (∀ s, ¬ SubstEdge re ctx s x) → (run mv (σ, sc)).1 x = σ x) := by
-  obtain ⟨pm, hpm, hsorted, hfun, hedge⟩ := connections_spec re ctx hctx hnew
+        (∀ s t, SubstEdge tfp re ctx s t → (run mv (σ, sc)).1 t = σ s) ∧
+        (∀ x, (∀ s, ¬ SubstEdge tfp re ctx s x) → (run mv (σ, sc)).1 x = σ x) := by
+  obtain ⟨pm, hpm, hsorted, hfun, hedge⟩ := connections_spec tfp hinj re ctx htot htot' hctx hnew
   have hfuel : (allNodes pm).length ≤ fuelFor pm := by unfold fuelFor; omega
   obtain ⟨ops, hops, hrun⟩ := parallelMovesFuel_correct (V := V) pm hsorted.keysNodup
     hsorted.targetsNodup hfun csE (fuelFor pm) hfuel
-  refine ⟨ctx.flatMap (refOpsFor re ctx), ops, ?_, rfl, ?_⟩
-  · simp only [codeSubstitute, codeWeakeningContraction_eq, hpm, parallelMoves, hops]
+  refine ⟨ctx.flatMap (refOpsFor tfp re ctx), ops, ?_, rfl, ?_⟩
+  · simp only [codeSubstitute, codeWeakeningContraction_eq tfp re ctx htot, hpm, parallelMoves, hops]
   · intro σ sc
     obtain ⟨h1, h2⟩ := hrun σ sc
     exact ⟨fun s t e => h1 s t ((hedge s t).mpr e),
       fun x hx => h2 x (fun s e => hx s ((hedge s x).mp e))⟩
+
+/-- the pieces of a `Substitute` statement, for reuse by the backend theorems -/
+theorem codeSubstitute_ok (tfp : Nat → Option Nat) (hinj : TfpInjective tfp)
+    (re : Rearrange) (ctx : Ctx) (csE : Root → Bool)
+    (htot : TfpTotal tfp ctx.length) (htot' : TfpTotal tfp re.length)
+    (hctx : (ctx.map (·.1)).Nodup) (hnew : (re.map (·.1.1)).Nodup) :
+    ∃ pm ops, Sorted pm ∧ Functional pm ∧ (∀ s t, Edge pm s t ↔ SubstEdge tfp re ctx s t) ∧
+      parallelMoves pm csE = .ok ops ∧
+      codeSubstitute tfp re ctx csE = .ok (ctx.flatMap (refOpsFor tfp re ctx)) ops := by
+  obtain ⟨pm, hpm, hsorted, hfun, hedge⟩ := connections_spec tfp hinj re ctx htot htot' hctx hnew
+  have hfuel : (allNodes pm).length ≤ fuelFor pm := by unfold fuelFor; omega
+  obtain ⟨ops, hops, _⟩ := parallelMovesFuel_correct (V := Unit) pm hsorted.keysNodup
+    hsorted.targetsNodup hfun csE (fuelFor pm) hfuel
+  refine ⟨pm, ops, hsorted, hfun, hedge, hops, ?_⟩
+  simp only [codeSubstitute, codeWeakeningContraction_eq tfp re ctx htot, hpm]
+  have : parallelMoves pm csE = .ok ops := hops
+  simp only [this]
+
+theorem variableTemporary_range {tfp : Nat → Option Nat} {num : Nat} {ctx : Ctx} {id s : Nat}
+    (h : variableTemporary tfp num ctx id = some s) : ∃ q, tfp q = some s := by
+  simp only [variableTemporary] at h
+  cases hp : getPosition ctx id with
+  | none => simp [hp] at h
+  | some p => simp only [hp] at h; exact ⟨_, h⟩
+
+theorem substEdge_range {tfp : Nat → Option Nat} {re : Rearrange} {ctx : Ctx} {s t : Nat}
+    (h : SubstEdge tfp re ctx s t) : (∃ q, tfp q = some s) ∧ (∃ q, tfp q = some t) := by
+  obtain ⟨_, _, _, _, _, _, _, hs, ht⟩ := h
+  exact ⟨variableTemporary_range hs, variableTemporary_range ht⟩
+
+theorem genericTemporary_injective : TfpInjective genericTemporary := by
+  intro a b c ha hb
+  simp only [genericTemporary, Option.some.injEq] at ha hb
+  omega
+
+theorem genericTemporary_total (n : Nat) : TfpTotal genericTemporary n :=
+  fun q _ => ⟨q, rfl⟩
 
 end Scc.PMoves
